@@ -53,6 +53,7 @@ func runC18(r *Run) {
 		c18E2E(r)
 	}
 	c18WriteThenCancel(r)
+	c18ChanShared(r)
 	c18ReadTimeout(r)
 }
 
